@@ -244,15 +244,20 @@ def run(ctx):
                        "genotypes are the allelic states determined by the mutations (isolated_as_missing=False)"]
     # J1: interval logic over all site sets
     tlc(ctx, "c28_j1a", NS=1, NI=0, L=4 if q else 5, max_muts=0, mgs=(1, 2, 3, 4), free=True, splits=(False,))
-    tlc(ctx, "c28_j1b", NS=2, NI=2, L=2, max_muts=1, extra=1, mgs=(1, 3), usermax=0)
+    if q:
+        tlc(ctx, "c28_j1b", NS=2, NI=1, L=2, max_muts=2, extra=1, mgs=(2,))
+    else:
+        tlc(ctx, "c28_j1b", NS=2, NI=2, L=2, max_muts=1, extra=1, mgs=(1, 3))
     if not q:
         tlc(ctx, "c28_j1c", NS=1, NI=0, L=6, max_muts=0, mgs=(2, 5), free=True, splits=(False,), flanks=(True,))
         tlc(ctx, "c28_j1d", NS=3, NI=2, L=2, max_muts=1, mgs=(2,), flanks=(True,), splits=(True,))
     # J2
-    insts = tlc(ctx, "c28_j2a", emit=True, NS=2, NI=2, L=2, max_muts=1, extra=0 if q else 1, mgs=(1, 3))
+    insts = tlc(ctx, "c28_j2a", emit=True, NS=2, NI=2, L=2, max_muts=1, extra=0 if q else 1,
+                mgs=(3,) if q else (1, 3))
     insts += tlc(ctx, "c28_j2b", emit=True, NS=2, NI=1, L=2, max_muts=1, mgs=(2,), usermax=2 if not q else 1,
                  flanks=(True,))
-    insts += tlc(ctx, "c28_j2c", emit=True, NS=2, NI=1, L=3, max_muts=2, mgs=(2, 3), tree_filter="nodangling")
+    insts += tlc(ctx, "c28_j2c", emit=True, NS=2, NI=1, L=3, max_muts=1 if q else 2, mgs=(2, 3),
+                 tree_filter="nodangling")
     cap = 2500 if q else 40000
     ctx.exhaustive = len(insts) <= cap
     if len(insts) > cap:
